@@ -885,13 +885,9 @@ func retryConnectCase(rt *rapid.T) {
 	ev.Case(partE2E, true, []byte("retry-connect|"+desc), func() interface{} { return desc }, "kind:retry-connect-failure")
 	ups := newUpstreams(1, func(n int, r *seenReq) upAction { return upAction{Kind: "reply", Body: "live"} })
 	defer ups.Close()
-	// a port nobody listens on: bind, remember, close
-	l, err := net.Listen("tcp", "127.0.0.1:0")
-	if err != nil {
-		rt.Skip("rig: " + err.Error())
-	}
-	dead := l.Addr().String()
-	_ = l.Close()
+	// a port nobody listens on: port 1 (privileged, unused) refuses every connect; a port that was bound and
+	// released could be taken by another test process on a busy machine
+	dead := "127.0.0.1:1"
 	hosts := []string{ups.addrs()[0], dead}
 	if deadFirst {
 		hosts = []string{dead, ups.addrs()[0]}
